@@ -62,13 +62,23 @@ def user_instance(name):
     return info["cls"](*[vals[f] for f in info["fields"]])
 
 
-def make_mapper(cached, handler_names, log):
+class HandlerError(Exception):
+    pass
+
+
+HANDLER_EXCEPTIONS = (AttributeError, KeyError, TypeError, ValueError, LookupError,
+                      NotImplementedError, RuntimeError, HandlerError)
+
+
+def make_mapper(cached, handler_names, log, raises=None):
     from pymbolic.mapper import CachedMapper, Mapper
     base = CachedMapper if cached else Mapper
     ns = {}
     for hn in handler_names:
         def h(self, expr, *a, _hn=hn, **k):
             log.append((_hn, a, dict(k)))
+            if raises is not None:
+                raise raises(f"raised inside {_hn}")
             return ("handled", _hn)
         ns[hn] = h
     return type("M", (base,), ns)()
@@ -127,6 +137,26 @@ def check_dispatch(item):
                           f"{name} (chain {chain}) with handlers {impl}, extra args {args} {kw}: "
                           f"expected handler {want}, got {res} log {log}"))
             break
+    # an exception raised INSIDE the selected handler is the caller's to see: same class, and no
+    # other handler is tried afterwards
+    if not fails and want in impl:
+        for exc in HANDLER_EXCEPTIONS:
+            expr = user_instance(name)
+            log = []
+            m = make_mapper(cached, impl, log, raises=exc)
+            fn = {"call": m, "rec": m.rec, "rec_fallback": m.rec_fallback}[entry]
+            try:
+                res = ("ok", fn(expr))
+            except RecursionError:
+                raise
+            except Exception as e:  # noqa: BLE001
+                res = ("raised", type(e).__name__, str(e)[:60])
+            if res[:2] != ("raised", exc.__name__) or [x[0] for x in log] != [want]:
+                fails.append(("dispatch:handler-exception",
+                              f"dispatch:handler-exception|{exc.__name__}|{entry}|cached={cached}",
+                              f"{name} with handlers {impl}: handler {want} raises "
+                              f"{exc.__name__}; got {res}, handlers run: {[x[0] for x in log]}"))
+                break
     return fails
 
 
@@ -574,7 +604,8 @@ class C04(Check):
             "Variable, Sum, CommonSubexpression; levels decorated+0/1 field, undecorated, legacy; "
             "init=False / hash=False; explicit handler names, also ones equal to the base's) "
             "x all subsets of the handlers in their chain x {Mapper, CachedMapper} x {__call__, "
-            "rec, rec_fallback} x 3 extra-argument shapes; 23 kinds of foreign objects; derived "
+            "rec, rec_fallback} x 3 extra-argument shapes, and with the selected handler raising each "
+            "of 8 exception classes (must reach the caller, no other handler tried); 23 kinds of foreign objects; derived "
             "handler names of all built-in and generated classes. traversals: every constructor "
             "shape of the full alphabet with every leaf combination and every (parent, position, "
             "child) nesting (thorough: plus three-level chains over 20 shapes) x extra-argument shapes (quick 3, thorough 6) x {identity, rewriting "
